@@ -396,6 +396,11 @@ func dataflow0(d DataflowParams) *Program {
 					Binds: []Bind{{"p", Self("p")}, {"flag", Self("flag")}}})
 				w.Ret = []Bind{{"r", Ref(fmt.Sprintf("W%d", lvl+1), "r")}}
 			}
+			if lvl == 1 && d.Extra == "handthru" {
+				// the outermost wrapper also hands its own input through
+				w.Outs = append(w.Outs, Param{T: passT, Name: "pp"})
+				w.Ret = append(w.Ret, Bind{"pp", Self("p")})
+			}
 			p.Pipelines = append(p.Pipelines, w)
 		}
 		flagE := Lit(Bool(false))
@@ -433,6 +438,23 @@ func dataflow0(d DataflowParams) *Program {
 	case "passthru":
 		top.Outs = append(top.Outs, Param{T: IntT, Name: "n"})
 		top.Ret = append(top.Ret, Bind{"n", Self("n")})
+	case "handthru":
+		// a consumer of the input the (possibly disabled, possibly mapped)
+		// wrapper call hands through
+		if d.Wrap == 0 {
+			return nil
+		}
+		ppT := valT
+		if d.Map == "top" {
+			ppT = wrapColl(elemT)
+		}
+		if !ppT.Valid() {
+			return nil
+		}
+		ids := idStage(p, ppT)
+		top.Calls = append(top.Calls, &Call{Callee: ids.Name, Alias: "THRU", Binds: []Bind{{"x", Ref("W1", "pp")}}})
+		top.Outs = append(top.Outs, Param{T: ppT, Name: "thru"})
+		top.Ret = append(top.Ret, Bind{"thru", Ref("THRU", "y")})
 	case "sink":
 		// a stage WITHOUT outputs consuming the source at top level, mapped
 		// the way the consumer is when that is mapped at the top
@@ -467,7 +489,7 @@ func DataflowFamily(maxDev int) []DataflowParams {
 	diss := []string{"", "gen-false", "gen-true", "in-true", "in-false"}
 	disAts := []string{"", "cons", "wrap", "src"}
 	conss := []string{"id", "sums", "add"}
-	extras := []string{"", "chain", "passthru", "sink"}
+	extras := []string{"", "chain", "passthru", "sink", "handthru"}
 	bools := []bool{false, true}
 	var out []DataflowParams
 	seen := map[string]bool{}
@@ -1249,7 +1271,10 @@ func OutsFlow(d OutsParams) *Program {
 	outs := append(filewOuts(), Param{T: IntT, Name: "num"}, Param{T: ArrayOf(ArrayOf(FiletypeT("txt"))), Name: "ff"},
 		Param{T: TMapOf(ArrayOf(FiletypeT("txt"))), Name: "mfa"}, Param{T: StructT("OUTER"), Name: "so"},
 		// din names the file inside the directory output d (mode 0)
-		Param{T: FileT, Name: "din"})
+		Param{T: FileT, Name: "din"},
+		// a struct whose file member comes after a string and an untyped map
+		Param{T: StructT("LS"), Name: "ls"})
+	p.Structs = append(p.Structs, &StructDecl{Name: "LS", Fields: []Param{{T: StringT, Name: "label"}, {T: MapT, Name: "info"}, {T: FiletypeT("txt"), Name: "f"}}})
 	prod := &Stage{Name: "FILEW", Fn: "FILEW", Ins: []Param{{T: IntT, Name: "n"}, {T: IntT, Name: "mode"}}, Outs: outs}
 	p.Stages = append(p.Stages, prod)
 	top := &Pipeline{Name: "TOP", Ins: []Param{{T: IntT, Name: "n"}, {T: IntT, Name: "mode"}}}
@@ -1352,7 +1377,7 @@ func OutsFlow(d OutsParams) *Program {
 }
 
 func OutsFamily(thorough bool) []OutsParams {
-	names := []string{"f", "g", "fs", "fm", "s", "ss", "ms", "sp", "um", "d", "num", "ff", "mfa", "so"}
+	names := []string{"f", "g", "fs", "fm", "s", "ss", "ms", "sp", "um", "d", "num", "ff", "mfa", "so", "ls"}
 	var sets [][]string
 	for _, n := range names {
 		sets = append(sets, []string{n})
